@@ -677,11 +677,13 @@ class Class(Node):
                                 try:
                                     # Avoid infinite recursion with search_imports = False
                                     c = self._find_class(imported_comp_ref, search_imports=False)
+                                    found_comp_ref = imported_comp_ref
                                 except (KeyError, ClassNotFoundError):
                                     pass
                             if c is not None:
-                                # Store result for next lookup
-                                self.imports[component_ref.name] = imported_comp_ref
+                                # Store result for next lookup (the reference that matched,
+                                # not the last one that was tried)
+                                self.imports[component_ref.name] = found_comp_ref
                                 return c
                             else:
                                 raise ClassNotFoundError
